@@ -50,16 +50,7 @@ func vCrashProgramFrom(shape int, steps int, segSize int, powerLoss bool) {
 	var pre vAbs
 	sizes := []int{0, 1, 16, segSize - 24}
 	vCrashAt = 1 + vChoice(14)
-	crashed := func() (c bool) {
-		defer func() {
-			if r := recover(); r != nil {
-				if _, ok := r.(vCrash); ok {
-					c = true
-					return
-				}
-				panic(r)
-			}
-		}()
+	crashed := vRunToCrash(func() {
 		for step := 0; step < steps; step++ {
 			cur.pendCut, cur.pendPrev = 0, 0
 			pre = *cur
@@ -104,8 +95,7 @@ func vCrashProgramFrom(shape int, steps int, segSize int, powerLoss bool) {
 				}
 			}
 		}
-		return false
-	}()
+	})
 	if !crashed {
 		vReach("no-crash")
 		cur.pendCut, cur.pendPrev = 0, 0
